@@ -23,10 +23,10 @@ INFO = {
                                'vertical_connections_checked': 2000, 'atmosphere_connections_checked': 100,
                                'surface_cut_blocks': 100, 'columns_with_specified_centre': 10},
                   'seen': {'atmosphere_type': 3}, 'nontrivial': 25},
-        'thorough': {'counters': {'grids': 1500, 'blocks_checked': 150000, 'horizontal_connections_checked': 150000,
-                                  'vertical_connections_checked': 100000, 'atmosphere_connections_checked': 5000,
-                                  'surface_cut_blocks': 5000, 'columns_with_specified_centre': 500},
-                     'seen': {'atmosphere_type': 3}, 'nontrivial': 800},
+        'thorough': {'counters': {'grids': 4000, 'blocks_checked': 400000, 'horizontal_connections_checked': 400000,
+                                  'vertical_connections_checked': 250000, 'atmosphere_connections_checked': 12000,
+                                  'surface_cut_blocks': 12000, 'columns_with_specified_centre': 1200},
+                     'seen': {'atmosphere_type': 3}, 'nontrivial': 2000},
     },
     'watchdog_s': {'quick': 1200, 'thorough': 5400},
     'assumptions': ['relative tolerance 1e-9 (pure float64 geometry)',
@@ -38,7 +38,7 @@ TOL = 1e-9
 def plan(tier, seed):
     if tier == 'quick':
         return [{'kind': 'gen', 'n': 25} for _ in range(3)] + [{'kind': 'shipped', 'names': ['g7', 'g5', 'g1'], 'variants': 2}]
-    return [{'kind': 'gen', 'n': 130} for _ in range(12)] + [{'kind': 'shipped', 'names': [n], 'variants': 4} for n in ['g1', 'g2', 'g3', 'g4', 'g5', 'g6', 'g7']]
+    return [{'kind': 'gen', 'n': 400} for _ in range(12)] + [{'kind': 'shipped', 'names': [n], 'variants': 4} for n in ['g1', 'g2', 'g3', 'g4', 'g5', 'g6', 'g7']]
 
 
 def close(a, b, scale=None, rel=TOL):
